@@ -327,9 +327,11 @@ where
                 } => {
                     let lane = projection(context);
                     let mut guard = lane.keys.borrow_mut();
-                    guard.remove(&key);
+                    // A link that was removed from the lane (remove_downlink) is not reinstated.
+                    let was_registered = guard.remove(&key).is_some();
                     drop(guard);
                     match response {
+                        LinkClosedResponse::Retry if !was_registered => break StepResult::done(()),
                         LinkClosedResponse::Abandon => break StepResult::done(()),
                         LinkClosedResponse::Delete => {
                             lane.inner.remove(&key);
